@@ -187,6 +187,9 @@ package vm
 //@ callsite (*runInfoStruct).runSingleStmt * [C04] childscope: fresh(runInfo.env) && runInfo.env.parent == old(runInfo.env)
 
 //@ func (*runInfoStruct).runTryStmt
+// C04: this construct BINDS its names (Define in the scope at hand); it never sets an existing binding of an enclosing scope: a call of
+// Env.SetValue would appear in the activation trace and break the trace clauses below
+//@ traces (*Env).SetValue
 //@ props C04 C08 C02 C09
 //@ like template.evalStmt
 //@ requires stmt != nil
@@ -237,6 +240,9 @@ package vm
 //@ ensures [C20 C08] notiterable: ncalls() >= 1 && res(0) == nil && rvKind(unwrap(res2(0))) != reflect.Slice && rvKind(unwrap(res2(0))) != reflect.Array && rvKind(unwrap(res2(0))) != reflect.Map && rvKind(unwrap(res2(0))) != reflect.Chan ==> ncalls() == 1 && runInfo.err != nil
 
 //@ func (*runInfoStruct).runForSliceStmt
+// C04: this construct BINDS its names (Define in the scope at hand); it never sets an existing binding of an enclosing scope: a call of
+// Env.SetValue would appear in the activation trace and break the trace clauses below
+//@ traces (*Env).SetValue
 //@ props C04 C08 C02
 //@ traced_optin value -> runInfo.err; runInfo.rv
 //@ requires [C01 C20] kind: rvValid(value) && (rvKind(value) == reflect.Slice || rvKind(value) == reflect.Array)
@@ -259,6 +265,9 @@ package vm
 //@ ensures [C08] allelems: runInfo.err == nil && !lastBody(ErrBreak) ==> ncalls() == rvLen(value)
 
 //@ func (*runInfoStruct).runForMapStmt
+// C04: this construct BINDS its names (Define in the scope at hand); it never sets an existing binding of an enclosing scope: a call of
+// Env.SetValue would appear in the activation trace and break the trace clauses below
+//@ traces (*Env).SetValue
 //@ props C04 C08 C02
 //@ traced_optin value -> runInfo.err; runInfo.rv
 //@ requires [C01 C20] kind: rvValid(value) && rvKind(value) == reflect.Map
@@ -280,6 +289,9 @@ package vm
 //@ ensures [C08] allkeys: runInfo.err == nil && !lastBody(ErrBreak) ==> ncalls() == len(keys)
 
 //@ func (*runInfoStruct).runForChanStmt
+// C04: this construct BINDS its names (Define in the scope at hand); it never sets an existing binding of an enclosing scope: a call of
+// Env.SetValue would appear in the activation trace and break the trace clauses below
+//@ traces (*Env).SetValue
 //@ props C04 C08 C02
 //@ traced_optin value -> runInfo.err; runInfo.rv
 //@ requires [C01 C20] kind: rvValid(value) && rvKind(value) == reflect.Chan
@@ -321,6 +333,9 @@ package vm
 //@ callsite (*runInfoStruct).runSingleStmt * [C04] childscope: fresh(runInfo.env) && runInfo.env.parent == old(runInfo.env)
 
 //@ func (*runInfoStruct).runVarStmt
+// C04: this construct BINDS its names (Define in the scope at hand); it never sets an existing binding of an enclosing scope: a call of
+// Env.SetValue would appear in the activation trace and break the trace clauses below
+//@ traces (*Env).SetValue
 //@ props C04 C08 C02
 //@ like template.evalStmt
 //@ requires stmt != nil
@@ -514,6 +529,10 @@ package vm
 
 // the function body runner created by funcExpr (runVMFunc) and its fixed-arity / reflect wrappers
 //@ func (*runInfoStruct).funcExpr$1
+// C04: this construct BINDS its names (Define in the scope at hand); it never sets an existing binding of an enclosing scope: a call of
+// Env.SetValue would appear in the activation trace and break the trace clauses below
+//@ traces (*Env).SetValue
+//@ ensures [C04] noset: forall k int :: 0 <= k && k < ncalls() ==> !calleeIs(k, "env.(*Env).SetValue")
 //@ props C04 C02 C08 C09
 //@ like template.vmfunc
 //@ captures env: envFunc != nil && options != nil && funcExpr != nil
